@@ -23,32 +23,50 @@ Theorem C12_estimate_real_short :
 Proof. exact estimate_real_short. Qed.
 Print Assumptions C12_estimate_real_short.
 
-(* (2) estimate, complex data, EVERY sample with N >= 2 (formerly refuted for sample covariance 0:
-   fixed finding C12-estimate-complex-r0): the two components carry the 2x2 covariance matrix of
-   the mean; they are declared independent exactly when the sample covariance is 0, and then no
-   correlation register is written *)
+(* (2) estimate, complex data, EVERY sample with N >= 2: the two components carry the 2x2 covariance
+   matrix of the mean and are ALWAYS declared as one dependent pair (never two independent inputs),
+   with the sample correlation -- 0 included -- in the correlation register.  History: sample
+   covariance exactly 0 first raised AttributeError (fixed finding C12-estimate-complex-r0), then
+   gave independent components, so that combinations such as (1+2j)*z or z.real+z.imag had dof
+   3.69 / 4.41 instead of N-1 = 3 on [1+2j,-1+2j,1-2j,-1-2j] (fixed finding
+   C12-estimate-complex-zero-cov-dof).  A dependent pair with common dof is the precondition under which the
+   kernel gives every combination N-1 dof (C05; tied for this estimator at session level by the
+   correspondence run). *)
 Theorem C12_estimate_complex :
   forall l : list (R * R), (2 <= length l)%nat ->
     let re := res_ l in let im := ims_ l in let n := lenR l in
-    exists lre lim o,
-      estimate_cplx RNum l = Ok (lre, lim, o)
+    exists lre lim r,
+      estimate_cplx RNum l = Ok (lre, lim, Some r)
       /\ lx lre = meanR re /\ lx lim = meanR im /\ ldf lre = n - 1 /\ ldf lim = n - 1
       /\ lu lre * lu lre = svar re / n /\ lu lim * lu lim = svar im / n
-      /\ lu lre * lu lim * (match o with Some r => r | None => 0 end) = ccov l / n
-      /\ lind lre = lind lim /\ (lind lre = true <-> ccov l = 0) /\ (o = None <-> ccov l = 0).
+      /\ lu lre * lu lim * r = ccov l / n
+      /\ lind lre = false /\ lind lim = false /\ (ccov l = 0 -> r = 0).
 Proof. exact estimate_cplx_full. Qed.
 Print Assumptions C12_estimate_complex.
 
+(* zero sample covariance with BOTH components varying (the symmetric design +-1 +-2j): one dependent
+   pair, r = 0, u = (sqrt(4/3)/2, sqrt(16/3)/2) *)
+Example C12_estimate_complex_symmetric_design :
+  exists lre lim,
+    estimate_cplx RNum [(1, 2); (-1, 2); (1, -2); (-1, -2)] = Ok (lre, lim, Some 0)
+    /\ lind lre = false /\ lind lim = false /\ lu lre * lu lre = / 3 /\ lu lim * lu lim = 4 / 3.
+Proof.
+  set (l := [(1, 2); (-1, 2); (1, -2); (-1, -2)]).
+  assert (ccov l = 0) as Hc by (unfold l, ccov, scov, meanR, lenR, len; cbn; field).
+  destruct (estimate_cplx_full l) as (lre & lim & r & E & _ & _ & _ & _ & Ur & Ui & _ & Ir & Ii & Hr); [cbn; auto|].
+  rewrite (Hr Hc) in E. exists lre, lim. split; [exact E|]. split; [exact Ir|]. split; [exact Ii|].
+  rewrite Ur, Ui. unfold l, svar, scov, meanR, lenR, len. cbn. split; field.
+Qed.
+
 (* the input that used to raise AttributeError (constant imaginary component) *)
 Example C12_estimate_complex_constant_component :
-  exists lre lim, estimate_cplx RNum [(1, 1); (2, 1)] = Ok (lre, lim, None) /\ lind lre = true /\ lu lim = 0.
+  exists lre lim, estimate_cplx RNum [(1, 1); (2, 1)] = Ok (lre, lim, Some 0) /\ lind lre = false /\ lu lim * lu lim = 0.
 Proof.
-  assert (ccov [(1, 1); (2, 1)] = 0) as Hc by (unfold ccov, scov, meanR, lenR, len; cbn; field).
-  assert (svar (ims_ [(1, 1); (2, 1)]) = 0) as Hv by (unfold svar, scov, meanR, lenR, len; cbn; field).
-  pose proof (estimate_cplx_R [(1, 1); (2, 1)]) as E. cbv zeta in E.
-  rewrite E by (cbn; auto). unfold is0. rewrite Hc. destruct (Req_EM_T 0 0); [|contradiction].
-  eexists _, _. split; [reflexivity|]. cbn [lind lu]. split; [reflexivity|].
-  rewrite Hv, sqrt_0. unfold Rdiv. apply Rmult_0_l.
+  set (l := [(1, 1); (2, 1)]).
+  assert (ccov l = 0) as Hc by (unfold l, ccov, scov, meanR, lenR, len; cbn; field).
+  destruct (estimate_cplx_full l) as (lre & lim & r & E & _ & _ & _ & _ & Ur & Ui & _ & Ir & Ii & Hr); [cbn; auto|].
+  rewrite (Hr Hc) in E. exists lre, lim. split; [exact E|]. split; [exact Ir|].
+  rewrite Ui. unfold l, svar, scov, meanR, lenR, len. cbn. field.
 Qed.
 
 (* (3) mean, standard_deviation, standard_uncertainty, variance_covariance_complex agree with
